@@ -32,9 +32,25 @@ func goEnv() []string {
 // runIn runs a command in dir and returns its exit status and combined output.
 // Exit status -1 means the process could not be started or was killed.
 func runIn(dir string, name string, args ...string) (int, string) {
+	return runEnv(nil, dir, name, args...)
+}
+
+// runCff runs the cff binary. Many cff processes run side by side, each
+// loading and type-checking its package and all dependencies from source; the
+// Go runtime knobs below only keep them from fighting over the CPUs (they
+// do not influence what cff computes).
+func runCff(dir string, bin string, args ...string) (int, string) {
+	extra := []string{"GOGC=off", "GOMAXPROCS=4"}
+	if v := os.Getenv("TEXTRUN_CFFENV"); v != "" {
+		extra = strings.Fields(v)
+	}
+	return runEnv(extra, dir, bin, args...)
+}
+
+func runEnv(extra []string, dir string, name string, args ...string) (int, string) {
 	cmd := exec.Command(name, args...)
 	cmd.Dir = dir
-	cmd.Env = goEnv()
+	cmd.Env = append(goEnv(), extra...)
 	var buf bytes.Buffer
 	cmd.Stdout = &buf
 	cmd.Stderr = &buf
